@@ -24,7 +24,7 @@ MAX_REPORTED = 6
 def lockstep_job(job):
     pid, sl, tier, idx = job
     t0 = time.time()
-    out = {'zoo': sl['zoo'], 'cfgs': sl['cfgs'], 'slice': idx, 'findings': [], 'samples': []}
+    out = {'zoo': sl['zoo'], 'cfgs': sl.get('cfgs', []), 'slice': idx, 'findings': [], 'samples': []}
     peers = []
     try:
         z0 = zoomod.ZOO[sl['zoo']]
@@ -32,11 +32,22 @@ def lockstep_job(job):
         args = []
         if sl.get('submits'):
             args += ['--submits', str(sl['submits'])]
-        for cfg in sl['cfgs']:
-            exe = vbuild.build_one(sl['zoo'], cfg)
-            peers.append(lockstep.Peer(cfg, exe, args))
-            zs.append(desc.for_family(z0, cfg))
-        ls = lockstep.LockStep(peers, zs, sl['cfgs'], [tuple(o.split(':')) if ':' in o else (o, '0') for o in sl['ops']],
+        names = []
+        if 'peers' in sl:
+            for zn, cfg in sl['peers']:
+                exe = vbuild.build_one(zn, cfg)
+                peers.append(lockstep.Peer(f'{zn}/{cfg}', exe, args))
+                zs.append(desc.for_family(zoomod.ZOO[zn], cfg))
+                names.append(f'{zn}/{cfg}')
+            sl = dict(sl)
+            sl['cfgs'] = names
+            out['cfgs'] = names
+        else:
+            for cfg in sl['cfgs']:
+                exe = vbuild.build_one(sl['zoo'], cfg)
+                peers.append(lockstep.Peer(cfg, exe, args))
+                zs.append(desc.for_family(z0, cfg))
+        ls = lockstep.LockStep(peers, zs, [c.split('/')[-1] for c in sl['cfgs']] if 'peers' in sl else sl['cfgs'], [tuple(o.split(':')) if ':' in o else (o, '0') for o in sl['ops']],
                                qbound=sl.get('qbound', 2), submits=sl.get('submits', 0), guards=sl.get('guards', -1),
                                n_menu=len(z0.menu), max_exec=sl.get('max_exec', 200000), deadline=sl.get('deadline'),
                                compare_ids=sl.get('compare_ids', False), act_in_trace=sl.get('act_in_trace', False))
@@ -56,20 +67,26 @@ def lockstep_job(job):
     return out
 
 
-def run_lockstep(pid, tier):
+def run_lockstep(pid, tier, slices=None, write_evidence=True):
     spec = propsmod.PROPS[pid]
     t0 = time.time()
-    slices = spec.get(tier) or spec['quick']
+    if slices is None:
+        slices = spec.get(tier) or spec['quick']
     pairs = set()
     for sl in slices:
+        if 'peers' in sl:
+            for zn, cfg in sl['peers']:
+                pairs.add((zn, cfg))
+            continue
         for cfg in sl['cfgs']:
             pairs.add((sl['zoo'], cfg))
     vbuild.build_many(sorted(pairs))
     rdir = os.path.join(VERIF, 'evidence', 'replays')
     os.makedirs(rdir, exist_ok=True)
     import glob
-    for old in glob.glob(os.path.join(rdir, f'{pid}-*.json')):
-        os.remove(old)
+    if write_evidence:
+        for old in glob.glob(os.path.join(rdir, f'{pid}-*.json')):
+            os.remove(old)
     jobs = [(pid, sl, tier, i) for i, sl in enumerate(slices)]
     with ProcessPoolExecutor(max_workers=min(8, len(jobs))) as ex:
         results = list(ex.map(lockstep_job, jobs))
@@ -98,7 +115,7 @@ def run_lockstep(pid, tier):
             if shown < MAX_REPORTED:
                 shown += 1
                 reported += 1
-                path = os.path.join(rdir, f'{pid}-{r["zoo"]}-{reported}.json')
+                path = os.path.join(rdir, f'{pid}-ls-{r["zoo"]}-{reported}.json')
                 with open(path, 'w') as fh:
                     json.dump(v, fh, indent=1)
                 print(f'VIOLATION property={pid} replay={path}')
@@ -124,6 +141,8 @@ def run_lockstep(pid, tier):
                         'observations are normalised as described in gen/lockstep.py (names for ids unless compare_ids, completion guards answering false dropped)'],
         'wall_s': round(time.time() - t0, 2), 'violations': nviol,
     }
+    if not write_evidence:
+        return {'nviol': nviol, 'coverage': ev['coverage'], 'known': dict(known_seen)}
     with open(os.path.join(VERIF, 'evidence', f'{pid}.json'), 'w') as fh:
         json.dump(ev, fh, indent=1)
     print(f'{pid} {tier}: lock-step slices={len(results)} product-states={states} executions={execs} violations={nviol} '
